@@ -156,6 +156,19 @@ def mutate_doc(r, doc):
             o["bins:type"] = "Sum" if o["bins:type"] != "Sum" else "Count"
             o.pop("bins:name", None)
             return "declared type of the empty bins at /%s" % "/".join(map(str, p)), d
+        names = [p for p, v in ps if p and isinstance(p[-1], str) and (p[-1] == "name" or p[-1].endswith(":name"))
+                 and isinstance(v, str)]
+        if names and c < 0.2:
+            # a quantity name (also of the immutable form, whose functions are all None)
+            p = r.choice(names)
+            get(d, p[:-1])[p[-1]] = get(d, p) + "_2"
+            return "quantity name at /%s" % "/".join(map(str, p)), d
+        nanw = [p for p, v in ps if isinstance(v, dict) and v.get("v") == "nan" and isinstance(v.get("w"), (int, float))]
+        if nanw and c < 0.7:
+            # the weight of the NaN value of a Bag
+            p = r.choice(nanw)
+            get(d, p)["w"] = get(d, p)["w"] + 1.0
+            return "weight of the nan value at /%s" % "/".join(map(str, p)), d
         if c < 0.5:
             nums = [p for p, v in ps if p and isinstance(v, (int, float)) and not isinstance(v, bool)]
             if not nums:
